@@ -237,46 +237,28 @@ ares_status_t ares_buf_append_byte(ares_buf_t *buf, unsigned char b)
 
 ares_status_t ares_buf_append_be16(ares_buf_t *buf, unsigned short u16)
 {
-  ares_status_t status;
+  unsigned char b[2];
 
-  status = ares_buf_append_byte(buf, (unsigned char)((u16 >> 8) & 0xff));
-  if (status != ARES_SUCCESS) {
-    return status; /* LCOV_EXCL_LINE: OutOfMemory */
-  }
+  /* Append all bytes with a single call so an allocation failure can not leave
+   * a partially written integer in the buffer */
+  b[0] = (unsigned char)((u16 >> 8) & 0xff);
+  b[1] = (unsigned char)(u16 & 0xff);
 
-  status = ares_buf_append_byte(buf, (unsigned char)(u16 & 0xff));
-  if (status != ARES_SUCCESS) {
-    return status; /* LCOV_EXCL_LINE: OutOfMemory */
-  }
-
-  return ARES_SUCCESS;
+  return ares_buf_append(buf, b, sizeof(b));
 }
 
 ares_status_t ares_buf_append_be32(ares_buf_t *buf, unsigned int u32)
 {
-  ares_status_t status;
+  unsigned char b[4];
 
-  status = ares_buf_append_byte(buf, ((unsigned char)(u32 >> 24) & 0xff));
-  if (status != ARES_SUCCESS) {
-    return status; /* LCOV_EXCL_LINE: OutOfMemory */
-  }
+  /* Append all bytes with a single call so an allocation failure can not leave
+   * a partially written integer in the buffer */
+  b[0] = (unsigned char)((u32 >> 24) & 0xff);
+  b[1] = (unsigned char)((u32 >> 16) & 0xff);
+  b[2] = (unsigned char)((u32 >> 8) & 0xff);
+  b[3] = (unsigned char)(u32 & 0xff);
 
-  status = ares_buf_append_byte(buf, ((unsigned char)(u32 >> 16) & 0xff));
-  if (status != ARES_SUCCESS) {
-    return status; /* LCOV_EXCL_LINE: OutOfMemory */
-  }
-
-  status = ares_buf_append_byte(buf, ((unsigned char)(u32 >> 8) & 0xff));
-  if (status != ARES_SUCCESS) {
-    return status; /* LCOV_EXCL_LINE: OutOfMemory */
-  }
-
-  status = ares_buf_append_byte(buf, ((unsigned char)u32 & 0xff));
-  if (status != ARES_SUCCESS) {
-    return status; /* LCOV_EXCL_LINE: OutOfMemory */
-  }
-
-  return ARES_SUCCESS;
+  return ares_buf_append(buf, b, sizeof(b));
 }
 
 unsigned char *ares_buf_append_start(ares_buf_t *buf, size_t *len)
